@@ -126,16 +126,14 @@ def matches_in(t) -> list:
 
 def show_origin(o) -> str:
     if o[0] == "param":
-        return f"the parameter `{o[1]}`"
+        return f"the parameter {o[1]}"
     if o[0] == "str":
         return f"str({show_origin(o[1])})"
     if o[0] == "strish":
-        return f"{show_origin(o[1])} (as a string)"
+        return f"{show_origin(o[1])} as a string"
     if o[0] == "var":
-        return f"the loop variable `{o[2] if len(o) > 2 else '?'}`"
-    if o[0] == "attr":
-        return f"`{o[1]}`"
-    return f"`{o[1]}`"
+        return f"the loop variable {o[2] if len(o) > 2 else '?'}"
+    return str(o[1])
 
 
 def show_term(t) -> str:
@@ -747,7 +745,7 @@ def run(repo: Repo, res: Result, rule: str, filter_cls: ClassInfo, pred: str) ->
                         ok, detail = False, f"`{norm(elt, 80)}`: the patterns are compiled with flags / extra arguments, they no longer mean what the user wrote"
                         break
                     if not (isinstance(elt.args[0], ast.Name) and isinstance(target, ast.Name) and elt.args[0].id == target.id):
-                        ok, detail = None, f"`{norm(elt, 80)}` compiles something else than the configured pattern itself"
+                        ok, detail = False, f"`{norm(elt, 80)}` compiles something else than the configured pattern itself: the pattern no longer means what the user wrote"
                         break
                 else:
                     ok, detail = None, f"`{norm(elt, 80)}` is not `re.compile(<pattern>)`"
